@@ -35,6 +35,6 @@ grep -rlE '/repo/' "$MHARN" --include=Cargo.toml --include='*.rs' --include=conf
 sed -i "s#/verif/harness/target#$MHARN/target#g" "$MHARN/.cargo/config.toml"
 rm -rf "$MROOT"; mkdir -p "$MROOT"; cp /verif/known_findings.json "$MROOT/"; cp /verif/check "$MROOT/check"
 [ -d /verif/corpus ] && ln -s /verif/corpus "$MROOT/corpus"
-( cd "$MROOT" && VERIF_ROOT_DIR="$MROOT" VERIF_HARNESS_DIR="$MHARN" python3 ./check "$prop" --tier quick 2>&1 | grep -v conda | grep -E "VIOLATION|KNOWN|INCONCLUSIVE|exit=|key=|error" | cut -c1-400 )
+( cd "$MROOT" && VERIF_ROOT_DIR="$MROOT" VERIF_HARNESS_DIR="$MHARN" python3 ./check "$prop" --tier quick 2>&1 | grep -a -v conda | grep -a -E "VIOLATION|KNOWN|INCONCLUSIVE|exit=|key=|error" | cut -c1-400 )
 git -C "$MREPO" checkout -q -- . ; git -C "$MREPO" clean -fdq
 echo "mutant run finished (replays, if any, under $MROOT/replays)"
